@@ -6,17 +6,37 @@ class P(vlib.Prop):
             "with increasing probability, packages missing on some architectures, virtuals requested by provided name, pinned and "
             "operator-carrying originals, duplicates, malformed originals) through the real build.unify (verif hook), every input "
             "run 6 times so Go's map randomisation samples iteration orders; provname stage: pkg/build's packageNameRegex sub-match. "
-            "A case is non-trivial when it has >= 2 architectures and a non-empty request list; distinct = distinct (originals, inputs).")
+            "api stage: synthetic signed repositories for 1-3 architectures (harness/synthrepo; versions present on some architectures only, "
+            "virtuals requested by provided name, providers differing per architecture, tagged repositories with pinned requests, operators, "
+            "duplicates) through build.NewMultiArch/BuildPackageLists and build.LockImageConfiguration (3-4 runs each), then every emitted lock "
+            "resolved again; cli stage: `apko lock` (lock.json entries judged against the package files: ranges, sha1/sha256 recomputed over the "
+            "recorded ranges) and `apko build` with and without --lockfile (installed database and image manifest), including a repository that "
+            "publishes a newer version after locking. A case is non-trivial when it has >= 2 architectures and a non-empty request list; "
+            "distinct = distinct case terms.")
     stages = (
         dict(name="unify", cmd="c09", args=lambda t, s: ["-stage", "unify"]),
         dict(name="provname", cmd="c09", args=lambda t, s: ["-stage", "provname"]),
         dict(name="api", cmd="c09", args=lambda t, s: ["-stage", "api"]),
         dict(name="cli", cmd="c09", args=lambda t, s: ["-stage", "cli"]),
     )
-    assumptions = ()
-    level_text = ""
-    level_note = ""
+    assumptions = (
+        "inputs of unify are as LockImageConfiguration builds them (packages = keys of versions; distinct architectures, none called 'index'); the harness also feeds ill-formed ones to the model comparison only",
+        "expandapk reports the byte sizes of the three gzip members and sha1(signature), sha1(control), sha256(data): modelled by `expand` over hash parameters, checked against real .apk files by the cli stage",
+        "c09_fixpoint_partial is about an abstract resolver with three stated hypotheses (sound, minimal, finds the solution of an exact lock); they are not proved of a resolver model",
+        "the pin of a lock entry is unify's own reading of the request (text from the first '@'); the validators use the resolver's grammar (C03 model) instead and agree on every generated case",
+    )
+    level_text = ("c09_unify_index / c09_unify_per_arch / c09_unify_order_independent hold for every request list, every number of architectures and every "
+                  "set/map iteration order of an executable model of build.unify whose delimiters, formats and sentinel key are regenerated from lock.go; "
+                  "c09_ranges holds for all member contents over the range arithmetic translated from LockCmd and the field copies translated from NewAPKResolved; "
+                  "c09_lock_entries_exact characterises what filterPackages admits for an exact entry (over the C03 constraint/version model); c09_lock_install is "
+                  "about the model of the Lockfile branch; the fixpoint itself is stated in full and proved under hypotheses on an abstract resolver, and searched "
+                  "for counterexamples on the real code (three recorded findings). The model is tied to the code by differential comparison through a verif hook and "
+                  "by validators evaluated in Coq on outputs of LockImageConfiguration, apko lock and apko build --lockfile.")
+    level_note = ("trusted: Coq kernel, goextract, Go harness/printer, synthrepo's independent apk writer; modelled not verified: Go text of unify/LockCmd/"
+                  "installablePackagesForArch, expandapk's member splitting, sets.Set/reflect.DeepEqual semantics, the resolver; correspondence is differential testing, not proof")
     design_ref = "DESIGN.md 7 C09"
-    modelled_not_verified = ""
+    modelled_not_verified = ("unify, LockImageConfiguration's construction of its inputs, one lock.json entry, installablePackagesForArch and the version test of filterPackages "
+                             "are modelled by hand (Model/Lock.v); regex, delimiters, formats, sentinel, range arithmetic and field copies are regenerated from the source; "
+                             "resolution, fetching, expandapk, JSON encoding and the image build are exercised end to end only")
 
 PROP = P()
